@@ -772,7 +772,26 @@ class T:
         return [f"/-- `GCode.prepare`, the branch without data (source lines {ln[0]}-{ln[-1]}) -/",
                 "def prepare_empty (self : GCode α) : GCode α :="] + out + [""]
 
+    def check_g92(self):
+        """the analyzer's reading of `G92` (C01's cross-oracle): an offset is taken for exactly the linear axes the line names -
+        `if line.<a> is not None: offset_<a> = current_<a> - line.<a>` for x, y, z and nothing else in that branch (no "reset all")"""
+        pre = self.method("_preprocess")
+        want = [f"if line.{a} is not None:\n    offset_{a} = current_{a} - line.{a}" for a in "xyz"]
+        hits = []
+        for n in ast.walk(pre):
+            if isinstance(n, ast.If):
+                t = n.test
+                if isinstance(t, ast.Compare) and un(t.left) == "line.command" and len(t.ops) == 1 and isinstance(t.ops[0], ast.Eq) \
+                        and un(t.comparators[0]) == "'G92'" and any("offset_x" in un(b) for b in n.body):
+                    hits.append(n)
+        if len(hits) != 1:
+            raise Unsupported(f"_preprocess: expected exactly one `line.command == 'G92'` branch that sets the axis offsets, found {len(hits)}")
+        body = [un(b) for b in hits[0].body]
+        if body != want:
+            fail(hits[0], "the G92 branch of the analyzer is no longer `an offset for exactly the axes the line names`: " + repr(body))
+
     def render(self):
+        self.check_g92()
         out = [f"/- GENERATED by tools/gen_gcoder.py from {SRC} (source text, by AST). Do not edit. -/",
                "import GscribModel.Model.GcoderPrelude", "namespace GscribModel.Gen.GcoderSrc", "open GscribModel.GcoderPy",
                "set_option linter.unusedVariables false", "variable {α : Type}", ""]
